@@ -278,6 +278,29 @@ def _ob_ticks_and_link(oi: int, ai: int) -> bool:
     return _judge(E, lambda: dim.link_data_array(E["da"], index), lambda: dim.link_data_array(E["da"], [0, -1]))
 
 
+def _ob_link_frame(ii: int, di: int, hist: int) -> bool:
+    """
+    pre: 0 <= ii < 8 and 0 <= di < 2 and 0 <= hist < 3
+    post: __return__
+    """
+    import numpy as np
+    from collections import OrderedDict
+    E = _fixture()
+    with untraced():
+        df = E["blk"].create_data_frame("df", "t", col_dict=OrderedDict([("name", str), ("id", int), ("x", float)]),
+                                        data=[("a", 1, 1.5), ("b", 2, 2.5)])
+    dim = _pick([E["da"].dimensions[0], E["da"].dimensions[1]], di)     # range / set dimension
+    if hist == 1:
+        dim.link_data_frame(df, 2)                  # history: already linked to a column
+    elif hist == 2:
+        dim.link_data_array(E["da"], [0, -1])       # history: linked to an array
+    index = _pick([1, np.int64(1), 3, -1, "1", 1.0, None, True], ii)
+    target = df
+    if ii == 7:
+        index, target = 1, E["da1"]                 # not a data frame at all
+    return _judge(E, lambda: dim.link_data_frame(target, index), lambda: dim.link_data_frame(df, 2))
+
+
 # ---------------------------------------------------------------------------
 # data append
 # ---------------------------------------------------------------------------
@@ -513,6 +536,12 @@ OBLIGATIONS = [
                   "nixio.data_array.DataArray.append_sampled_dimension",
                   "nixio.data_array.DataArray.append_range_dimension"],
        replay=_mk_replay("_ob_append_dimension")),
+    Ob("link_data_frame_args", _ob_link_frame, timeout=600,
+       functions=["nixio.dimensions.Dimension.link_data_frame", "nixio.dimensions.RangeDimension.link_data_frame",
+                  "nixio.dimensions.DimensionLink.create_new"],
+       replay=_mk_replay("_ob_link_frame"),
+       outside="one data frame of three columns; index classes int / numpy integer / out of range / negative / "
+               "text / float / None; range and set dimension; with and without an earlier link"),
     Ob("ticks_and_dimension_link", _ob_ticks_and_link, timeout=900,
        functions=["nixio.dimensions.RangeDimension.ticks", "nixio.dimensions.Dimension.link_data_array"],
        replay=_mk_replay("_ob_ticks_and_link")),
